@@ -484,6 +484,83 @@ where
     (parts, data, trailers)
 }
 
+/// knob `web`: the same call through `tonic_web::GrpcWebLayer`; the grpc-web response (DATA frames, then the
+/// trailers as a frame with the 0x80 flag) is taken apart again so that the observation reads as in the plain case
+async fn serve_web<B>(
+    grpc: tonic::server::Grpc<RawCodec>,
+    shape: String,
+    script: Script,
+    req: http::Request<B>,
+) -> (http::response::Parts, Vec<u8>, Option<http::HeaderMap>)
+where
+    B: http_body::Body<Data = Bytes> + Send + 'static,
+    B::Error: Into<Box<dyn std::error::Error + Send + Sync>> + std::fmt::Display + Send,
+{
+    use tower::{Layer, Service};
+    let cell = Arc::new(tokio::sync::Mutex::new(grpc));
+    let inner = tower::service_fn(move |req: http::Request<tonic::body::Body>| {
+        let cell = cell.clone();
+        let shape = shape.clone();
+        let script = script.clone();
+        async move {
+            let mut grpc = cell.lock().await;
+            let resp = match shape.as_str() {
+                "u" => grpc.unary(UnarySvc(script), req).await,
+                "ss" => grpc.server_streaming(SStreamSvc(script), req).await,
+                "cs" => grpc.client_streaming(CStreamSvc(script), req).await,
+                _ => grpc.streaming(BidiSvc(script), req).await,
+            };
+            Ok::<_, std::convert::Infallible>(resp)
+        }
+    });
+    let mut web = tonic_web::GrpcWebLayer::new().layer(inner);
+    let resp = match web.call(req).await {
+        Ok(r) => r,
+        Err(e) => match e {},
+    };
+    let (parts, mut body) = resp.into_parts();
+    let mut raw = Vec::new();
+    let mut trailers: Option<http::HeaderMap> = None;
+    while let Some(fr) = body.frame().await {
+        match fr {
+            Ok(f) => {
+                if f.is_data() {
+                    raw.extend_from_slice(&f.into_data().unwrap());
+                } else if let Ok(t) = f.into_trailers() {
+                    trailers = Some(t);
+                }
+            }
+            Err(_) => break,
+        }
+    }
+    // split off the trailers frame(s)
+    let mut data = Vec::new();
+    let mut b = &raw[..];
+    while b.len() >= 5 {
+        let len = u32::from_be_bytes([b[1], b[2], b[3], b[4]]) as usize;
+        if b.len() < 5 + len {
+            break;
+        }
+        if b[0] & 0x80 != 0 {
+            let mut t = trailers.take().unwrap_or_default();
+            for line in b[5..5 + len].split(|c| *c == b'\n') {
+                let line = line.strip_suffix(b"\r").unwrap_or(line);
+                if let Some(i) = line.iter().position(|c| *c == b':') {
+                    if let (Ok(n), Ok(v)) = (http::HeaderName::from_bytes(&line[..i]), http::HeaderValue::from_bytes(line[i + 1..].strip_prefix(b" ").unwrap_or(&line[i + 1..]))) {
+                        t.append(n, v);
+                    }
+                }
+            }
+            trailers = Some(t);
+        } else {
+            data.extend_from_slice(&b[..5 + len]);
+        }
+        b = &b[5 + len..];
+    }
+    data.extend_from_slice(b);
+    (parts, data, trailers)
+}
+
 fn srv_tokens(rec: &Rec, headers: &http::HeaderMap, data: &[u8], trailers: Option<&http::HeaderMap>, rmsg: &[u8]) -> String {
     let (wh, st) = if let Some(st) = Status::from_header_map(headers) {
         ("hdr", Some(st))
@@ -576,6 +653,14 @@ fn run_srv(shape: &str, c: &mut Cur<'_>) -> Option<String> {
             Err(_) => return Some("not-a-header-value".into()),
         }
     }
+    if kn.web != 0 {
+        // the grpc-web front: what a browser client sends (no `te`, grpc-web content-type, HTTP/1.1 or 2)
+        let h = req.headers_mut()?;
+        h.remove("te");
+        h.insert("content-type", http::HeaderValue::from_static(if kn.xh & 8 != 0 { "application/grpc-web+proto" } else { "application/grpc-web" }));
+        h.insert("accept", http::HeaderValue::from_static("application/grpc-web"));
+        req = req.version(if kn.web == 1 { http::Version::HTTP_11 } else { http::Version::HTTP_2 });
+    }
     type ReqBody = http_body_util::Either<http_body_util::Full<Bytes>, x::ChunkBody>;
     let req: http::Request<ReqBody> = if kn.cut == 0 && kn.xh & 32 == 0 {
         req.body(http_body_util::Either::Left(http_body_util::Full::new(Bytes::from(body)))).ok()?
@@ -656,6 +741,9 @@ fn run_srv(shape: &str, c: &mut Cur<'_>) -> Option<String> {
                         break;
                     }
                 }
+            }
+            if kn.web != 0 {
+                return serve_web(grpc, shape.to_string(), script, req).await;
             }
             serve_shape(&mut grpc, shape, script, req).await
         })
